@@ -15,7 +15,8 @@
    sig: 0 digital silence, 1 loud speech-like, 2 faint noise, 3 full-scale square + noise, 4 white noise,
         5 speech-like with NaN / Inf / huge samples sprinkled in (float entry point; the integer entry
         points get saturated full-scale values instead), 6 wide stereo music-like, 7 every sample huge (1e10)
-        or NaN, 8 pure tone, 9 impulses.
+        or NaN, 8 pure tone, 9 impulses, 11 clean talk spurts separated by digital silence (no noise), 12 clean talker
+        without pauses (c09 also: 10 = signal 1 with pauses of 0.7 s).
    Each produced packet is decoded, in order, by every decoder of the execution.
 
    ------------------------------------------------------------------ hx_link c09 < script
@@ -63,6 +64,29 @@ static double speechy(sgen_t *s, int fs)
    return 0.28 * env * v + nb * env * (hx_unit(&s->r) * 2 - 1);
 }
 
+/* "clean" families: harmonic, pitch- and amplitude-modulated, NO additive noise.
+   bursts = 1: talk spurts of 250..600 ms separated by exact digital silence of 80..200 ms (schedule derived from the
+   time alone, so that it is the same whatever the packet duration); bursts = 0: one talker without pauses. */
+static double cleanspeech(sgen_t *s, int fs, int bursts)
+{
+   double t = s->t, f0, env, v = 0; int h;
+   if (bursts) {
+      /* cycle k lasts on(k) + off(k) ms with on in 250..600, off in 80..200 (fixed pseudo-random table) */
+      static const int ON[8] = {420, 250, 600, 330, 510, 280, 450, 370}, OFF[8] = {120, 200, 80, 160, 100, 180, 140, 90};
+      double ms = fmod(t * 1000.0, 3210.0 + 1070.0); int k = 0; double a = 0;
+      while (k < 8 && ms >= a + ON[k] + OFF[k]) { a += ON[k] + OFF[k]; k++; }
+      if (k == 8 || ms >= a + ON[k]) { s->phase += 2 * M_PI * 150.0 / fs; if (s->phase > 2 * M_PI * 64) s->phase -= 2 * M_PI * 64; return 0.0; }
+      /* 10 ms raised-cosine edges */
+      { double x = ms - a, e = 1.0; if (x < 10) e = 0.5 - 0.5 * cos(M_PI * x / 10); else if (x > ON[k] - 10) e = 0.5 - 0.5 * cos(M_PI * (ON[k] - x) / 10);
+        env = e * (0.6 + 0.3 * sin(2 * M_PI * 2.1 * t)); }
+   } else env = 0.55 + 0.35 * sin(2 * M_PI * 3.7 * t) * sin(2 * M_PI * 0.9 * t + 0.4);
+   f0 = 140.0 + 50.0 * sin(2 * M_PI * 1.1 * t) + 20.0 * sin(2 * M_PI * 0.31 * t);
+   s->phase += 2 * M_PI * f0 / fs;
+   if (s->phase > 2 * M_PI * 64) s->phase -= 2 * M_PI * 64;
+   for (h = 1; h <= 14; h++) if (h * f0 < 0.45 * fs) v += sin(h * s->phase + 0.3 * h) / h;
+   return 0.3 * env * v;
+}
+
 static void gen_sig(sgen_t *s, int kind, float *x, int n, int ch, int fs)
 {
    static const double CH[6] = {220.0, 277.18, 329.63, 440.0, 659.25, 1318.5};
@@ -86,6 +110,7 @@ static void gen_sig(sgen_t *s, int kind, float *x, int n, int ch, int fs)
       case 7: v = (s->n % 3 == 0) ? 1e10 : (s->n % 3 == 1) ? -1e10 : 3e9; w = v; break;
       case 8: s->phase += 2 * M_PI * 1000.0 / fs; if (s->phase > 2 * M_PI) s->phase -= 2 * M_PI; v = 0.5 * sin(s->phase); w = v; break;
       case 9: v = (s->n % (fs / 100) == 3) ? 0.9 : 0.0; w = (s->n % (fs / 80) == 5) ? -0.9 : 0.0; break;
+      case 11: case 12: v = cleanspeech(s, fs, kind == 11); w = 0.8 * v; break;
       default: break;
       }
       for (c = 0; c < ch; c++) x[(size_t)i * ch + c] = (float)((c & 1) ? w : v);
@@ -245,7 +270,7 @@ static int c02_new(char *line)
 
 static void c02_encode(int frame, int mb, int sigk, int api)
 {
-   float *in; opus_int16 *a16; opus_int32 *a24; hx_buf out; int ret, k, nin;
+   float *in; opus_int16 *a16; opus_int32 *a24; hx_buf out; int ret, k, nin, hk, havehs = 0, pk0[7], pk1[7], hs[4];
    opus_int32 dur = -1, vbr = -1, br = -1, dtx = -1, fec = -1; opus_uint32 er = 0;
    int alloc_frame = frame > 0 && frame <= 3 * o.Fs ? frame : 1;
    nin = alloc_frame * o.ch;
@@ -278,6 +303,7 @@ static void c02_encode(int frame, int mb, int sigk, int api)
          dec_t *d = &o.dec[k]; int cap = d->fo / 25 * 3, r; opus_uint32 dr = 0;
          size_t ssz = d->api == 0 ? 2 : 4;
          hx_buf po = hx_buf_new((size_t)cap * d->co * ssz, 0x3A);
+         if (k == 0 && d->d) { for (hk = 0; hk < 7; hk++) pk0[hk] = opus_verif_decoder_peek(d->d, hk); }
          hx_arm(60);
          if (d->d) r = d->api == 0 ? opus_decode(d->d, pk, ret, (opus_int16 *)po.p, cap, 0) : d->api == 1 ? opus_decode24(d->d, pk, ret, (opus_int32 *)po.p, cap, 0)
                                                                                              : opus_decode_float(d->d, pk, ret, (float *)po.p, cap, 0);
@@ -291,11 +317,14 @@ static void c02_encode(int frame, int mb, int sigk, int api)
          else if (d->md) opus_multistream_decoder_ctl(d->md, OPUS_GET_FINAL_RANGE(&dr));
          else opus_projection_decoder_ctl(d->pd, OPUS_GET_FINAL_RANGE(&dr));
          printf("%s{\"fo\":%d,\"co\":%d,\"a\":%d,\"r\":%d,\"dr\":\"%08x\"}", k ? "," : "", d->fo, d->co, d->api, r, (unsigned)dr);
+         if (k == 0 && d->d) { for (hk = 0; hk < 7; hk++) pk1[hk] = opus_verif_decoder_peek(d->d, hk); for (hk = 0; hk < 4; hk++) hs[hk] = opus_verif_decoder_peek(d->d, 11 + hk); havehs = 1; }
          hx_buf_free(&po);
       }
       free(pk);
    }
    printf("]");
+   /* decoder 0: control state before / after the call and the handshake its last frame decided (hook fields 11..14) */
+   if (havehs) { js_arr_i("pk0", pk0, 7); js_arr_i("pk1", pk1, 7); js_arr_i("hs", hs, 4); }
    js_close();
    o.i++;
    hx_buf_free(&out); free(in); free(a16); free(a24);
